@@ -198,6 +198,9 @@ _SIG_ARR = re.compile(r"^(?P<dt>[a-z]+[0-9]*)\[(?P<dims>[^\]]*)\]$")
 def parse_numba_type(txt):
     """'float64[:, ::1]' -> ('float64', 2, 'C'); 'float64[:]' -> ('float64', 1, 'A'); 'float64' -> ('float64', 0, None)."""
     txt = txt.strip()
+    mo = re.match(r"^(?:numba\.)?(?:types\.)?[Oo]ptional\((.*)\)$", txt)
+    if mo:
+        txt = mo.group(1).strip()
     m = _SIG_ARR.match(txt)
     if not m:
         return (txt, 0, None)
